@@ -222,7 +222,7 @@ class e2e_glyf_outlines:
 
 
 def _gen_otsvg(rng):
-    fmt = rng.choice(["picosvg", "picosvg", "picosvgz"])
+    fmt = rng.choice(["picosvg", "picosvg", "picosvgz", "untouchedsvg", "untouchedsvgz"])
     over_ = _cfg_variants(rng, fmt)
     if rng.random() < 0.2:
         over_["reuse_tolerance"] = -1
